@@ -50,3 +50,23 @@ func TestReplay(t *testing.T) {
 		run(t, "TestReplay", c)
 	}
 }
+
+// TestPinned: the release race repaired by 6fec84d (see rx.ReleaseRaceProbe).
+func TestPinned(t *testing.T) {
+	hit := 0
+	for i := 0; i < 40; i++ {
+		reg, released, cleaned := rx.ReleaseRaceProbe(2000)
+		if reg == 0 {
+			t.Fatalf("harness: the retry never ran")
+		}
+		if released > reg {
+			c := map[string]interface{}{"history": "run 1 registers R and fails with the retry sentinel; its release goroutine pauses at release.decided; run 2 registers R", "registered_at": reg, "released_at": released, "cleanup_ran": cleaned}
+			p := rec.Violate("TestPinned", c, "a resource was released (cleanup ran: "+map[bool]string{true: "yes", false: "not yet"}[cleaned]+") after the current computation of a live rerunner had registered it")
+			t.Fatalf("resource released at event %d after run 2 registered it at event %d while run 2's computation is current (replay %s)", released, reg, p)
+		}
+		if released == 0 {
+			hit++ // the registration landed in the gap and the resource stayed
+		}
+	}
+	rec.Case("pinned-release-race", hit > 0, "pinned")
+}
